@@ -744,7 +744,15 @@ impl UndoOperation for DeleteColumn {
             let offset: usize = self.column as usize;
             for (i, ch) in self.deleted_chars.iter().enumerate() {
                 if let Some(ch) = ch {
-                    layer.lines[i].chars.insert(offset, *ch);
+                    // rows may have been dropped again since the column was deleted (they are stored lazily)
+                    if layer.lines.len() <= i {
+                        layer.lines.resize(i + 1, Line::default());
+                    }
+                    let line = &mut layer.lines[i];
+                    if line.chars.len() < offset {
+                        line.chars.resize(offset, AttributedChar::invisible());
+                    }
+                    line.chars.insert(offset, *ch);
                 }
             }
             layer.set_width(layer.get_width() + 1);
